@@ -11,6 +11,8 @@ import PandoraModel.Generated.KernelsCrossCheck
 import PandoraModel.Properties.C07
 import Mathlib.Tactic.Linarith
 import Mathlib.Tactic.Ring
+import Mathlib.Tactic.Tauto
+import Mathlib.Tactic.SplitIfs
 
 set_option linter.unusedSimpArgs false
 set_option linter.unusedVariables false
@@ -306,6 +308,9 @@ def agreesOn (P : Params) (dL dR : List Val) (mask : List Nat) : Bool :=
                  (ccRow .ruleFix P dL dR mask).map (fun o => confFl o.conf))
 
   What is proved below instead (`…_partial` in the sense of BUILDING.md):
+  * `crossCheckRow_consistency_eq` (end of the file): stage 1 of the generated definition — everything up to `invalid_col`: the
+    confidence row and the ordered list of invalidated columns — equals the hand model FOR EVERY ROW, all 20 tests true;
+    stages 2 (witness search) and 3 (flag update; an attempt is kept out of the tree) are the missing part;
   * the bridge lemmas the proof needs, for ALL lists: `gather_where`, `scatterSet_where`, `scatterSet_range`,
     `getD_scatterSet_map`, `select_map`, `maskSet_map`, `zipWith_map_map`, `zipWith3_map`, `tileRows_len`, `tileCols_len`,
     `gatherOk_where` (with them `simp only` brings every vector of the generated definition to the form `L.map f` over a
@@ -400,7 +405,8 @@ theorem crossCheckRow_consistency_eq (thr : ℚ) (dL dR : List Val) (m : Nat →
       all_goals first
         | (intros; omega)
         | (generalize Flags.isInvalid (m c) = b; cases b <;> (try simp) <;> (try omega) <;>
-           (try (rw [Bool.eq_iff_iff]; (try simp); (try omega))); done)
+           (try (rw [Bool.eq_iff_iff]; (try simp); (try omega))) <;> (try tauto) <;>
+           (try (split_ifs <;> first | rfl | omega)); done)
     · show List.map _ _ = List.map _ _
       congr 1
       simp only [List.filter_filter, ICcols]
@@ -410,9 +416,10 @@ theorem crossCheckRow_consistency_eq (thr : ℚ) (dL dR : List Val) (m : Nat →
       all_goals first
         | (intros; omega)
         | (generalize Flags.isInvalid (m c) = b; generalize (absSum _ _).gt thr = g;
-           cases b <;> cases g <;> (try simp) <;> (try omega); done)
+           cases b <;> cases g <;> (try simp) <;> (try omega) <;> (try tauto); done)
         | (generalize Flags.isInvalid (m c) = b; cases b <;> (try simp) <;> (try omega) <;>
-           (try (rw [Bool.eq_iff_iff]; (try simp); (try omega))); done)
+           (try (rw [Bool.eq_iff_iff]; (try simp); (try omega))) <;> (try tauto) <;>
+           (try (split_ifs <;> first | rfl | omega)); done)
   · simp only [Bool.and_eq_true]
     repeat' apply And.intro
     all_goals first
